@@ -50,7 +50,8 @@ package bufioutil
 //@   ensures result1 == nil ==> result0 <= 1099511627776
 //@ end
 //@ extern func io.ReadFull
-//@   modifies *
+//@   note the reader is an external object (file / network reader): reading from it fills the buffer and changes nothing else that is under contract
+//@   modifies buf[*]
 //@   ensures n >= 0 && n <= len(buf)
 //@ end
 //@ extern func github.com/lindb/lindb/pkg/stream.UvariantSize
